@@ -93,7 +93,9 @@ func runProperty(opt options) int {
 		return 2
 	}
 	loadT := time.Since(t0)
-	cases := grid.cases(opt.tier)
+	pr := newProber(prog, opt.timeoutMs)
+	cases := grid.cases(opt.tier, pr)
+	pr.close()
 	if opt.only != "" {
 		var f []sym.CaseSpec
 		for _, c := range cases {
@@ -141,6 +143,12 @@ func runProperty(opt options) int {
 				sol.CrossEvery = 499
 			}
 			for i := range ch {
+				if cases[i].MaxWallS == 0 {
+					cases[i].MaxWallS = 90
+					if opt.tier == "thorough" {
+						cases[i].MaxWallS = 900
+					}
+				}
 				r := runCaseSafe(prog, sol, cases[i])
 				results[i] = r
 				mu.Lock()
